@@ -456,9 +456,9 @@ def run(ctx):
     ctx.assumptions += [
         "hash(): modelled by the tuple that is hashed; equal tuples hash equally (Python guarantee); the harness compares hash equality with key equality",
         "str.isspace / \\s, str.isdecimal / \\d / int(), str.lower and the int() digit limit of the running Python are parameters of the model "
-        "(tables translated on every run by harness/gen/str_tables.py); every table entry and every `Lawful` side condition the theorems assume of them "
-        "(agreement with the ASCII rules below 128, lower() idempotent, lower() creates no white space) is validated on all 1,114,112 code points on every run, "
-        "both on the Lean tables (driver request tables_lawful) and on the real str methods",
+        "(tables translated on every run by harness/gen/str_tables.py, proved `Lawful` in Lean: real_tables_lawful); every table entry and every `Lawful` side "
+        "condition (agreement with the ASCII rules below 128, lower() idempotent, lower() creates no white space) is also validated on all 1,114,112 code points "
+        "on every run, on the Lean tables (driver request tables_lawful) and on the real str methods",
         "str.lower() of a string containing GREEK CAPITAL SIGMA is context dependent (final-sigma rule): such requests are answered `unmodelled`; the direct evaluation still runs on them",
         "functools.lru_cache on Color.parse / Style.parse / Style.normalize is transparent (routes bypass it for Style.parse so that every object is fresh; the cached entry points are exercised by style_parse / normalize cases)",
         "NULL_STYLE is modelled in its steady state (_style_definition already 'none')",
@@ -820,26 +820,29 @@ def replay(ctx, case):
 
 MANIFEST = {
     "text": "Lean 4 theorems (Props/C06.lean) about an executable model of rich.style.Style / Color.parse, unbounded over all styles "
-    "(13 tri-state attributes as two bit masks x arbitrary colours x optional link) and all construction routes: "
-    "add_assoc ((a+b)+c = a+(b+c) as full object state, every variant), add_null_right/left, add_right_bias_attr/color/link "
-    "(right operand wins exactly where it specifies a value), chain_is_fold; parse_render_roundtrip / parse_str_roundtrip "
-    "(parse(str(s)) == s for every style satisfying the decidable predicate Style.wf), parse_result_wf (every parse result satisfies it), "
-    "parse_str_parse, normalize_roundtrip, normalize_idempotent (on definitions that parse); documented spellings: all 22 attribute words "
-    "and `not <word>`, every ANSI_COLOR_NAMES entry (table translated from rich/color.py each run) alone and after `on`, color(n) for n<=255, "
-    "default, #rrggbb for all hex digits, rgb(r,g,b) for all r,g,b<=255; eq_hash: for every two styles reachable through "
-    "__init__/from_color/parse/+/chain/combine/copy/update_link/without_color/str(), a == b implies equal stored hash keys "
-    "(induction on the construction route; proved for the repaired code, which /repo contains now: fix a639ea2 = "
-    "pending_fixes/C06-hash-from-fields.diff, with decide-checked witnesses old_*_hash_wrong that rich 9.10.0 as found violated it on "
-    "four routes, and old_update_link_stale_str for the stale str() cache, fix cf948b2). Tie: ~50k (quick) / ~1M (thorough) generated cases per run compared model-vs-rich on the full modelled state "
-    "(fields, _null, _style_definition, str(), the 13 getters, stored-hash consistency, wf), plus the theorems' executable statements "
-    "evaluated on real Style objects with model-independent oracles (keyword reconstruction, docs/source/appendix/colors.rst, dict/set behaviour).",
+    "(13 tri-state attributes as two bit masks x arbitrary colours x optional link), all construction routes and ALL code points "
+    "(the parsers are parametric in the interpreter's character tables; every text theorem holds for every lawful table, and the tables "
+    "translated from the running Python on each run are proved lawful — real_tables_lawful, decide +kernel over the regenerated tables): "
+    "add_assoc ((a+b)+c = a+(b+c) as full object state, every variant), add_null_right/left, add_right_bias_attr/color/link, chain_is_fold, "
+    "add_is_merge / add_respects_eq / empty_style_is_identity (the stored _null flag is unobservable through + and ==); "
+    "parse_render_roundtrip / parse_str_roundtrip (parse(str(s)) == s for every style satisfying the decidable predicate Style.wf), "
+    "parse_result_wf (every parse result satisfies it), parse_str_parse, normalize_roundtrip, normalize_idempotent (on definitions that parse); "
+    "documented spellings: all 22 attribute words and `not <word>`, every ANSI_COLOR_NAMES entry (table translated from rich/color.py each run) "
+    "alone and after `on`, color(n) for n<=255, default, #rrggbb for all hex digits of either case, rgb(r,g,b) for all r,g,b<=255; "
+    "eq_hash: for every two styles reachable through __init__/from_color/parse/+/chain/combine/copy/update_link/without_color/str(), "
+    "a == b implies equal stored hash keys (induction on the construction route). Decide-checked witnesses for the six defects found "
+    "(old_*_hash_wrong x4, old_update_link_stale_str, old_empty_link_breaks_identity). Tie: ~55k (quick) / ~1.1M (thorough) generated cases "
+    "per run compared model-vs-rich on the full modelled state (fields, _null, _style_definition, str(), the 13 getters, stored-hash "
+    "consistency, wf) over all code points (KELVIN SIGN, non-ASCII digits and white space, the int() 4300-digit limit), every entry of the "
+    "character tables against the real str methods, plus the theorems' executable statements evaluated on real Style objects with "
+    "model-independent oracles (keyword reconstruction, docs/source/appendix/colors.rst, dict/set behaviour).",
     "note": "Partial: hash() itself is the Python runtime — modelled by the tuple that is hashed; assumption `equal tuples hash equally`, and the harness "
-    "compares hash equality with key equality on every route pair. Text outside ASCII is outside the model (str.lower/split/strip, \\d, \\s, int() are "
-    "Unicode-aware): such requests are answered `unmodelled` (counted) while the direct evaluation still runs on them. lru_cache on parse/normalize "
-    "assumed transparent; NULL_STYLE modelled in its steady state; _link_id and _ansi not modelled. A link is None or a non-empty string: "
-    "Style(link='') is modelled faithfully but lies outside the identity/round-trip statements (== tells '' from None although every other method "
-    "treats both as no link). normalize is NOT idempotent on definitions that do not parse (`italic not Bold`: witness theorem "
-    "normalize_not_idempotent_unparseable) — outside the statement. Trusted: Lean kernel; axioms propext/Classical.choice/Quot.sound; "
-    "translator plug-in harness/gen/color_names.py; the correspondence harness.",
-    "design_ref": "DESIGN.md section 7, C06; pre-findings F3-F6 (section 8) + new finding F26 (update_link copies the cached _style_definition)",
+    "compares hash equality with key equality on every route pair. str.lower() of a string containing GREEK CAPITAL SIGMA is context dependent "
+    "(final-sigma rule): answered `unmodelled` (counted) while the direct evaluation still runs on it. lru_cache on parse/normalize assumed "
+    "transparent; NULL_STYLE modelled in its steady state; _link_id and _ansi not modelled. The text round trip is stated for links that are None "
+    "or one non-empty word. normalize is NOT idempotent on definitions that do not parse (`italic not Bold`: witness theorem "
+    "normalize_not_idempotent_unparseable) — outside the statement. bool(style) follows the stored _null flag, which == ignores — outside the statement. "
+    "Trusted: Lean kernel; axioms propext/Classical.choice/Quot.sound; translator plug-ins harness/gen/color_names.py and harness/gen/str_tables.py "
+    "(the latter translates facts about CPython's str, re-validated on all code points each run); the correspondence harness.",
+    "design_ref": "DESIGN.md section 7, C06; pre-findings F3-F6 (section 8) + F26 (update_link copies the cached _style_definition) + F30 (Style(link='') breaks the identity law)",
 }
